@@ -50,6 +50,10 @@
 //! full quick run is green): a table column declared Dictionary(Int32, Utf8), `collect_statistics=true`,
 //! >= 2 files of which one has no min/max for the column (missing or all NULL) and a WHERE clause going
 //! through interval analysis -> `Internal error: Endpoints of an Interval should have the same type`.
+//! Second open finding, shared with C24 (`pushdown+mask+predicate-cache+small-batch`, case
+//! regressions/C44/c44/sparse-page-mask.json, found by the thorough tier): `pushdown_filters=true`, a filter
+//! of >= 2 conjuncts and batch_size 7 over 8-row pages -> `Parquet error: Invalid offset in sparse column
+//! chunk data`; excluded via `known_signature` unless `force_filter_selections` is on.
 use crate::util::*;
 use datafusion::arrow::array::*;
 use datafusion::arrow::datatypes::{DataType, Field, Fields, Schema, SchemaRef, TimeUnit};
@@ -242,6 +246,8 @@ pub struct Opts {
     pub stats: u8,
     pub bloom: bool,
     pub dict: bool,
+    #[serde(default)]
+    pub force_sel: bool,
 }
 
 #[derive(Clone, Debug, Serialize, Deserialize)]
@@ -837,9 +843,9 @@ fn opts_strategy() -> BoxedStrategy<Opts> {
     let on = || prop::bool::weighted(0.85);
     (
         (any::<bool>(), any::<bool>(), on(), on(), on(), any::<bool>(), prop::bool::weighted(0.6)),
-        (on(), 1usize..4, prop_oneof![1 => Just(2usize), 1 => Just(7usize), 2 => Just(8192usize)], 3usize..60, prop_oneof![1 => Just(0u8), 2 => Just(1u8), 3 => Just(2u8)], any::<bool>(), any::<bool>()),
+        (on(), 1usize..4, prop_oneof![1 => Just(2usize), 1 => Just(7usize), 2 => Just(8192usize)], 3usize..60, prop_oneof![1 => Just(0u8), 2 => Just(1u8), 3 => Just(2u8)], any::<bool>(), any::<bool>(), any::<bool>()),
     )
-        .prop_map(|((pushdown, reorder, pruning, page_index, bloom_read, view_types, skip_metadata), (collect_stats, partitions, batch_size, rg, stats, bloom, dict))| Opts {
+        .prop_map(|((pushdown, reorder, pruning, page_index, bloom_read, view_types, skip_metadata), (collect_stats, partitions, batch_size, rg, stats, bloom, dict, force_sel))| Opts {
             pushdown,
             reorder,
             pruning,
@@ -854,6 +860,7 @@ fn opts_strategy() -> BoxedStrategy<Opts> {
             stats,
             bloom,
             dict,
+            force_sel,
         })
         .boxed()
 }
@@ -948,6 +955,7 @@ async fn execute(case: &Case, table: &RTable, files: &[RFile], dir: &std::path::
     let cfg = new_cfg(&[
         (format!("{p}pushdown_filters"), o.pushdown.to_string()),
         (format!("{p}reorder_filters"), o.reorder.to_string()),
+        (format!("{p}force_filter_selections"), o.force_sel.to_string()),
         (format!("{p}pruning"), o.pruning.to_string()),
         (format!("{p}enable_page_index"), o.page_index.to_string()),
         (format!("{p}bloom_filter_on_read"), o.bloom_read.to_string()),
@@ -993,7 +1001,7 @@ impl Property for C44 {
         case_strategy(tier.pick(40, 150))
     }
     fn budget(&self, tier: Tier) -> Budget {
-        Budget::new(tier.pick(1_500, 40_000), tier.pick(8, 16)).min_nontrivial(tier.pick(200, 6000)).case_timeout(90)
+        Budget::new(tier.pick(1_500, 30_000), tier.pick(8, 16)).min_nontrivial(tier.pick(200, 5000)).case_timeout(90)
     }
     fn rule(&self) -> String {
         "table schema = struct column + 1-5 typed scalar columns; 1-3 Parquet files whose physical schemas permute / drop / add columns and struct fields and use lower types of a value-preserving lattice; \
@@ -1016,6 +1024,10 @@ impl Property for C44 {
         let dict_col = case.table.iter().any(|c| c.kind == 3 && pick(&table_types(VK::Str), c.ty) == STy::DictUtf8);
         if dict_col && case.opts.collect_stats && has_pred {
             return Some("dictionary-table-column+collect-statistics+filter".into());
+        }
+        // open finding shared with C24 (parquet push decoder, mask strategy over sparsely fetched pages)
+        if case.opts.pushdown && !case.opts.force_sel && case.opts.batch_size < 64 && has_pred {
+            return Some("pushdown+mask+predicate-cache+small-batch".into());
         }
         None
     }
@@ -1132,7 +1144,7 @@ impl Property for C44 {
             }
         }
         let o = &case.opts;
-        for (on, name) in [(o.pushdown, "o:pushdown_filters"), (o.view_types, "o:view-types"), (!o.skip_metadata, "o:arrow-metadata-used"), (o.collect_stats, "o:collect-stats"), (o.partitions > 1, "o:partitions>1"), (o.bloom, "w:bloom")] {
+        for (on, name) in [(o.pushdown, "o:pushdown_filters"), (o.pushdown && o.force_sel, "o:force_filter_selections"), (o.view_types, "o:view-types"), (!o.skip_metadata, "o:arrow-metadata-used"), (o.collect_stats, "o:collect-stats"), (o.partitions > 1, "o:partitions>1"), (o.bloom, "w:bloom")] {
             if on {
                 labels.push(name.into());
             }
